@@ -54,8 +54,15 @@ def gen_cases(tier, seed):
         segs = [[start + k * PAGE, PAGE] for k in range(nblk) if k % 2 == phase]
         tail = start + nblk * PAGE + (4 << 20)
         segs.append([tail, r.choice([1, 100, PAGE])])
-        yield {"kind": "file", "size": tail + segs[-1][1] + r.choice([0, 1, 5000]), "segs": segs, "falloc": [[start, nblk * PAGE]], "sync": True,
+        yield {"kind": "file", "size": tail + segs[-1][1] + r.choice([0, 1, 5000]), "segs": segs, "falloc": [[start, nblk * PAGE]], "sync": r.random() < 0.5,
                "fs": "ext4", "seed": r.randrange(1, 1 << 30), "first0": start == 0 and phase == 0, "lastbyte": False, "dense": False, "touching": True}
+    for i in range(16 if tier == "quick" else 200):
+        # a preallocated region partly overwritten and NOT synced: FIEMAP (without FLAG_SYNC) may still call it unwritten
+        ln = r.choice([PAGE, 3 * PAGE, 64 * 1024])
+        w0 = r.choice([0, 100, PAGE])
+        segs = [[(1 << 20) + w0, r.choice([1, 4973, ln - w0])]]
+        yield {"kind": "file", "size": (4 << 20) + r.choice([0, 1]), "segs": segs, "falloc": [[1 << 20, ln]], "sync": False, "fs": "ext4",
+               "seed": r.randrange(1, 1 << 30), "first0": False, "lastbyte": False, "dense": False, "touching": False, "prealloc_unsynced": True}
     for i in range(12 if tier == "quick" else 100):
         size = r.choice([0, 1, 4095, 4096, 4097, 100000, 1 << 20])
         yield {"kind": "file", "size": size, "segs": None, "sync": r.random() < 0.5, "fs": "tmpfs" if r.random() < 0.3 else "ext4", "seed": r.randrange(1, 1 << 30),
@@ -155,7 +162,7 @@ def run_file(case, res):
         res["counters"]["fs:" + case["fs"]] = 1
         n = len(written)
         res["evals"].append({"key": [case["fs"], "0" if n == 0 else "1-3" if n <= 3 else "4-32" if n <= 32 else ">32", case["first0"], case["lastbyte"], case["sync"],
-                                     case["size"] % PAGE == 0, case["dense"], bool(case.get("touching")), bool(case.get("huge"))],
+                                     case["size"] % PAGE == 0, case["dense"], bool(case.get("touching")), bool(case.get("huge")), bool(case.get("prealloc_unsynced"))],
                              "sample": {"fs": case["fs"], "size": case["size"], "written": written[:5], "n_written": n, "synced": case["sync"],
                                         "extents": (j["extents"] or [])[:5] if not isinstance(j["extents"], dict) else j["extents"],
                                         "n_extents": len(j["extents"]) if isinstance(j["extents"], list) else None, "segments": j["segments"][:5]}})
